@@ -32,6 +32,8 @@ func runC05(c *core.Ctx) {
 	rulePeekDiscardPre(c)
 	ruleDepthDiscipline(c)
 	ruleBudgetCharged(c)
+	ruleUncheckedAssertions(c)
+	ruleVisitedMonotone(c)
 }
 
 // call graph -----------------------------------------------------------------
@@ -1308,5 +1310,233 @@ func ruleBudgetCharged(c *core.Ctx) {
 		}
 	}
 	c.Floor(rule, 2)
+	_ = n
+}
+
+// Non-comma-ok type assertions of package pdf: a failed assertion panics.
+// Each is reviewed; key "function|asserted type".
+var c05Assertions = map[string]string{
+	"pdf.(*scanner).ReadArray|Integer":        "read path; licensed by the trailing-integer counter whose discipline is checked by the int-counter obligation below",
+	"pdf.DecodeExclusive|T":                   "the cache and the in-flight table are keyed by (reference, reflect type of T); an entry under that key was stored as T (C18-R4 checks who stores)",
+	"pdf.StoreOrLoadPair|A":                   "pair cache keyed by (reference, type A): only values of type A are stored under that key",
+	"pdf.StoreOrLoadPair|B":                   "as above for B",
+	"pdf.(*Reader).Close|io.Closer":           "ownsReader is set only by Open, which opened an *os.File",
+	"pdf.(*Writer).Close|io.Closer":           "closeOrigW is set only by Create, which created an *os.File",
+	"pdf.(*Writer).scannerFrom|io.ReadSeeker": "called only from Writer.get after the same assertion succeeded in comma-ok form",
+	"pdf.(*Placeholder).Set|io.WriteSeeker":   "write side; placeholders that need patching are created only for seekable sinks",
+	"pdf.StringOrStream.Embed|String":         "write side; TextString.AsPDF returns a String by construction",
+	"pdf.encodeFlateLZW|*zlib.Writer":         "the pool only ever holds *zlib.Writer (its New function and every Put)",
+	"pdf.zlibNewReader|zlib.Resetter":         "the pool only holds readers created by zlib.NewReader, which implement Resetter and ReadCloser",
+	"pdf.zlibNewReader|io.ReadCloser":         "as above",
+}
+
+// ruleUncheckedAssertions (C05-R5, continued): every non-comma-ok type
+// assertion of package pdf is reviewed; and the one on the read path that
+// depends on an invariant (ReadArray folding "a b R") has its invariant
+// checked: the counter that licenses the assertions is only ever reset to 0
+// or incremented where the element about to be appended was tested to be an
+// Integer, so it never exceeds the number of trailing integers in the array.
+func ruleUncheckedAssertions(c *core.Ctx) {
+	const rule = "C05-R5"
+	c.Check(rule, "pdf/unchecked-assertions", "every non-comma-ok type assertion in package pdf is in the reviewed table (a failed assertion panics; on the read path the file controls the dynamic type)", func(o *core.Ob) {
+		pkg := c.Prog.Pkg("pdf")
+		n := 0
+		for _, fn := range c.Prog.Funcs(pkg) {
+			okForm := map[*ast.TypeAssertExpr]bool{}
+			ast.Inspect(fn.Decl, func(m ast.Node) bool {
+				switch x := m.(type) {
+				case *ast.AssignStmt:
+					if len(x.Lhs) == 2 && len(x.Rhs) == 1 {
+						if ta, ok := ast.Unparen(x.Rhs[0]).(*ast.TypeAssertExpr); ok {
+							okForm[ta] = true
+						}
+					}
+				case *ast.ValueSpec:
+					if len(x.Names) == 2 && len(x.Values) == 1 {
+						if ta, ok := ast.Unparen(x.Values[0]).(*ast.TypeAssertExpr); ok {
+							okForm[ta] = true
+						}
+					}
+				case *ast.TypeSwitchStmt:
+					ast.Inspect(x.Assign, func(k ast.Node) bool {
+						if ta, ok := k.(*ast.TypeAssertExpr); ok {
+							okForm[ta] = true
+						}
+						return true
+					})
+				}
+				return true
+			})
+			ast.Inspect(fn.Decl, func(m ast.Node) bool {
+				ta, ok := m.(*ast.TypeAssertExpr)
+				if !ok || okForm[ta] || ta.Type == nil {
+					return true
+				}
+				n++
+				o.Count(1)
+				key := fn.Key + "|" + c.Prog.Src(ta.Type)
+				if _, ok := c05Assertions[key]; !ok {
+					o.FailAt(fn.Site(ta, ""), "%s: unchecked type assertion %s in %s is not in the reviewed table (key %q)", c.Prog.Pos(ta.Pos()), c.Prog.Src(ta), fn.Key, key)
+				}
+				return true
+			})
+		}
+		o.Require(n >= 10, "only %d unchecked assertions found", n)
+	})
+	c.Check(rule, "pdf.(*scanner).ReadArray/int-counter", "the counter of trailing integers that licenses array[k-2].(Integer) is only reset to zero, or incremented for an element tested to be an Integer", func(o *core.Ob) {
+		fn := c.Prog.Func("pdf", "(*scanner).ReadArray")
+		g := fn.Graph()
+		info := fn.Info()
+		// the counter: the variable compared with a constant in a condition that dominates the unchecked assertions
+		var counter types.Object
+		var asserts []*core.V
+		for _, v := range g.Vs {
+			if v.AST == nil {
+				continue
+			}
+			found := false
+			ast.Inspect(v.AST, func(m ast.Node) bool {
+				if ta, ok := m.(*ast.TypeAssertExpr); ok && ta.Type != nil && c.Prog.Src(ta.Type) == "Integer" {
+					if as, ok := v.AST.(*ast.AssignStmt); ok && len(as.Lhs) == 1 {
+						found = true
+					}
+				}
+				return true
+			})
+			if found {
+				asserts = append(asserts, v)
+			}
+		}
+		if len(asserts) == 0 {
+			o.Count(1)
+			o.Fact("no unchecked Integer assertion in ReadArray")
+			return
+		}
+		for _, av := range asserts {
+			o.At(fn.Site(av.AST, "unchecked assertion"))
+			for _, a := range g.DominatingAtoms(av) {
+				cmp, ok := a.AsCmp()
+				if !ok {
+					continue
+				}
+				if k, isK := core.IntConst(info, cmp.R); isK && ((cmp.Op == token.GEQ && k >= 2) || (cmp.Op == token.GTR && k >= 1)) {
+					if obj := core.ObjOf(info, cmp.L); obj != nil {
+						counter = obj
+					}
+				}
+			}
+		}
+		if counter == nil {
+			o.Fail("the unchecked Integer assertions in ReadArray are not guarded by a counter >= 2")
+			return
+		}
+		for _, dv := range defVertices(g, counter) {
+			o.Count(1)
+			switch s := dv.AST.(type) {
+			case *ast.AssignStmt:
+				if len(s.Rhs) == 1 {
+					if k, ok := core.IntConst(info, s.Rhs[0]); ok && k == 0 && (s.Tok == token.ASSIGN || s.Tok == token.DEFINE) {
+						continue
+					}
+				}
+				o.FailAt(fn.Site(s, ""), "%s: the trailing-integer counter is changed by %s: it may then exceed the number of Integer elements at the end of the array and the unchecked assertion panics", c.Prog.Pos(s.Pos()), c.Prog.Src(s))
+			case *ast.IncDecStmt:
+				if s.Tok != token.INC {
+					o.FailAt(fn.Site(s, ""), "%s: counter decremented", c.Prog.Pos(s.Pos()))
+					continue
+				}
+				// guarded by the ok result of a comma-ok .(Integer)
+				ok := g.GuardedBy(dv, func(a core.Atom) bool {
+					id, isID := ast.Unparen(a.Expr).(*ast.Ident)
+					if !isID || a.Neg {
+						return false
+					}
+					obj := info.ObjectOf(id)
+					for _, d := range core.AssignsTo(info, fn.Decl, obj) {
+						if as, isAs := d.(*ast.AssignStmt); isAs && len(as.Lhs) == 2 && len(as.Rhs) == 1 {
+							if ta, isTA := ast.Unparen(as.Rhs[0]).(*ast.TypeAssertExpr); isTA && ta.Type != nil && c.Prog.Src(ta.Type) == "Integer" {
+								return true
+							}
+						}
+					}
+					return false
+				})
+				o.Require(ok, "%s: the counter is incremented for an element that was not tested to be an Integer", c.Prog.Pos(s.Pos()))
+			case *ast.ValueSpec:
+			}
+		}
+	})
+}
+
+// ruleVisitedMonotone (C05-R9): a visited-set bounds a walk over a graph
+// read from a file only if it is monotone: a node, once entered, is never
+// entered again.  If entries are removed when the walk returns from a node
+// (an "on-path" set), cycles are still cut but a node reachable along
+// several paths is expanded once per path: k levels of nodes that each list
+// their successor twice cost 2^k visits from a file of size O(k).  For every
+// function that guards on membership of a map keyed by references, the same
+// function never deletes from that map, clears it or stores false into it.
+func ruleVisitedMonotone(c *core.Ctx) {
+	const rule = "C05-R9"
+	n := 0
+	for _, pkg := range c.Prog.RepoPkgs() {
+		for _, fn := range c.Prog.Funcs(pkg) {
+			fn := fn
+			info := fn.Info()
+			sets := map[types.Object]ast.Node{}
+			ast.Inspect(fn.Decl.Body, func(m ast.Node) bool {
+				is, ok := m.(*ast.IfStmt)
+				if !ok || !exits(is.Body) {
+					return true
+				}
+				ast.Inspect(is.Cond, func(k ast.Node) bool {
+					ix, ok := k.(*ast.IndexExpr)
+					if !ok {
+						return true
+					}
+					mt, ok := info.TypeOf(ix.X).Underlying().(*types.Map)
+					if !ok || !strings.Contains(core.TypeString(mt.Key()), "Reference") {
+						return true
+					}
+					if b, ok := mt.Elem().Underlying().(*types.Basic); !ok || b.Info()&types.IsBoolean == 0 {
+						if _, isStruct := mt.Elem().Underlying().(*types.Struct); !isStruct {
+							return true
+						}
+					}
+					if obj := core.ObjOf(info, ix.X); obj != nil {
+						sets[obj] = is
+					}
+					return true
+				})
+				return true
+			})
+			for obj, site := range sets {
+				obj, site := obj, site
+				n++
+				c.Check(rule, fn.Key+"/"+obj.Name(), "the visited-set is monotone: nothing is removed from it while the walk is running", func(o *core.Ob) {
+					o.At(fn.Site(site, "membership guard"))
+					o.Count(1)
+					ast.Inspect(fn.Decl.Body, func(m ast.Node) bool {
+						switch x := m.(type) {
+						case *ast.CallExpr:
+							if id, ok := x.Fun.(*ast.Ident); ok && (id.Name == "delete" || id.Name == "clear") && len(x.Args) >= 1 && core.ObjOf(info, x.Args[0]) == obj {
+								o.FailAt(fn.Site(x, ""), "%s: %s removes entries from the visited-set %s: a node reachable along several paths is then walked once per path (exponential in the depth)", c.Prog.Pos(x.Pos()), c.Prog.Src(x), obj.Name())
+							}
+						case *ast.AssignStmt:
+							for i, l := range x.Lhs {
+								if ix, ok := ast.Unparen(l).(*ast.IndexExpr); ok && core.ObjOf(info, ix.X) == obj && len(x.Rhs) == len(x.Lhs) {
+									if cv := core.ConstOf(info, x.Rhs[i]); cv != nil && cv.String() == "false" {
+										o.FailAt(fn.Site(x, ""), "%s: an entry of the visited-set %s is reset to false", c.Prog.Pos(x.Pos()), obj.Name())
+									}
+								}
+							}
+						}
+						return true
+					})
+				})
+			}
+		}
+	}
+	c.Floor(rule, 6)
 	_ = n
 }
